@@ -263,6 +263,13 @@ pub const LINE_PATS: &[LinePat] = &[
     },
     LinePat { re: "é", matches: |t| t.contains('é') },
     LinePat { re: "^(TODO|FIXME): ", matches: |t| t.starts_with("TODO: ") || t.starts_with("FIXME: ") },
+    // patterns that can match the empty string: "has a match" is then true of every line
+    LinePat { re: "[0-9]*", matches: |_| true },
+    LinePat { re: "^(TODO: )?", matches: |_| true },
+    LinePat { re: "x*$", matches: |_| true },
+    LinePat { re: "", matches: |_| true },
+    // zero-width assertion only: a word boundary exists iff the line has a word character
+    LinePat { re: r"\b", matches: |t| t.chars().any(|c| c.is_alphanumeric() || c == '_') },
 ];
 
 pub fn line_pat(re: &str) -> Option<&'static LinePat> {
